@@ -192,6 +192,14 @@ func Positions() []Position {
 		{"fnarg/first-of-3", "clamp(%s, 0, 10)", "vector", "vector"},
 		{"fnarg/first,scalar-last", "clamp_max(%s, scalar(n))", "vector", "vector"},
 		{"histparam", "histogram_quantile(scalar(%s), h_bucket)", "vector", "vector"},
+		{"binscalar(scalar())/rhs", "n / scalar(%s)", "vector", "vector"},
+		{"binscalar(scalar())/lhs", "scalar(%s) * n", "vector", "vector"},
+		{"binscalar(scalar())/cmp", "n > bool scalar(%s)", "vector", "vector"},
+		{"scalarbin(scalar())", "1 + scalar(%s)", "vector", "scalar"},
+		{"vector(scalar())", "vector(scalar(%s))", "vector", "vector"},
+		{"unary(scalar())", "-scalar(%s)", "vector", "scalar"},
+		{"binlhs/scalar-rhs", "(%s) * 2", "vector", "vector"},
+		{"binrhs/scalar-lhs", "2 - (%s)", "vector", "vector"},
 
 		{"top", "%s", "scalar", "scalar"},
 		{"vector()", "vector(%s)", "scalar", "vector"},
